@@ -38,7 +38,69 @@ type verifTB interface {
 	Logf(format string, args ...interface{})
 }
 
+// verifSweep: native sampling mode (translator / trusted-base validation, decides nothing): harnesses run
+// natively on pseudo-random inputs; VERIF_SWEEP="<harness>:<instances>:<rounds>:<seed>".
+var (
+	verifSweepOn bool
+	verifRng     uint64
+)
+
+func verifRand() uint64 {
+	verifRng ^= verifRng << 13
+	verifRng ^= verifRng >> 7
+	verifRng ^= verifRng << 17
+	return verifRng
+}
+
+func verifSweepMain(t verifTB, hs map[string]func(), spec string) {
+	var name string
+	var inst, rounds int
+	var seed uint64
+	parts := strings.Split(spec, ":")
+	if len(parts) != 4 {
+		t.Fatalf("bad VERIF_SWEEP %q", spec)
+	}
+	name = parts[0]
+	inst, _ = strconv.Atoi(parts[1])
+	rounds, _ = strconv.Atoi(parts[2])
+	seed, _ = strconv.ParseUint(parts[3], 10, 64)
+	h, ok := hs[name]
+	if !ok {
+		t.Fatalf("unknown harness %s", name)
+	}
+	verifSweepOn = true
+	verifRng = seed*2654435761 + 88172645463325252
+	runs := 0
+	for r := 0; r < rounds; r++ {
+		for i := 0; i < inst; i++ {
+			verifReplay = verifReplayFile{Harness: name, Instance: i}
+			verifReplayPos = 0
+			verifFailed = nil
+			func() {
+				defer func() {
+					if x := recover(); x != nil {
+						if s, ok := x.(string); ok && s == "verif-assume-false" {
+							return
+						}
+						panic(x)
+					}
+				}()
+				h()
+			}()
+			runs++
+			if len(verifFailed) > 0 {
+				t.Fatalf("VERIF-SWEEP-FAILED %s#%d: %v", name, i, verifFailed)
+			}
+		}
+	}
+	fmt.Printf("VERIF-SWEEP-OK %s runs=%d\n", name, runs)
+}
+
 func verifReplayMain(t verifTB, hs map[string]func()) {
+	if spec := os.Getenv("VERIF_SWEEP"); spec != "" {
+		verifSweepMain(t, hs, spec)
+		return
+	}
 	p := os.Getenv("VERIF_REPLAY")
 	if p == "" {
 		return
@@ -78,6 +140,41 @@ func verifReplayMain(t verifTB, hs map[string]func()) {
 }
 
 func verifNext(kind string) string {
+	if verifSweepOn {
+		r := verifRand()
+		switch kind {
+		case "bool":
+			if r&1 == 1 {
+				return "true"
+			}
+			return "false"
+		case "string":
+			n := int(r>>8) % 3
+			b := make([]byte, n)
+			for i := range b {
+				b[i] = byte(0x20 + verifRand()%0x5f)
+			}
+			return string(b)
+		case "byte":
+			return strconv.FormatUint(r%128, 10)
+		}
+		// integers: boundary-biased
+		switch r % 8 {
+		case 0:
+			return "0"
+		case 1:
+			return "1"
+		case 2:
+			return "127"
+		case 3:
+			return "128"
+		case 4:
+			return strconv.FormatUint(^uint64(0), 10)
+		case 5:
+			return strconv.FormatUint(1<<63, 10)
+		}
+		return strconv.FormatUint(verifRand()>>(verifRand()%64), 10)
+	}
 	for verifReplayPos < len(verifReplay.Nondet) {
 		r := verifReplay.Nondet[verifReplayPos]
 		verifReplayPos++
@@ -123,6 +220,9 @@ func nondetString() string { return verifNext("string") }
 
 // choose returns an arbitrary value in [0,n): a concrete fork under symgo.
 func choose(n int) int {
+	if verifSweepOn {
+		return int(verifRand() % uint64(n))
+	}
 	u, _ := strconv.ParseUint(verifNext("choose"), 10, 64)
 	if int(u) >= n {
 		return 0
